@@ -24,6 +24,7 @@ import PhQVerif.Theory.Tensor
 import PhQVerif.Checkers
 import PhQVerif.Generated.All
 import PhQVerif.Generated.Obl_SameFormula
+import PhQVerif.Theory.RelErr
 
 namespace PhQVerif.Props.C18
 open PhQVerif Generated
@@ -196,6 +197,71 @@ theorem all_formats :
       t.1.tree.valuesR x = t.2.1.tree.valuesR x ∧ t.2.2.tree.valuesR x = t.2.1.tree.valuesR x := by
   intro t ht x
   exact sameFormula_sound (List.all_eq_true.mp Obl.SameFormula t ht) x
+
+/-! ### To a few ulps -/
+
+/-- The definitional relations of this file, at the three numeric types. -/
+def definitions : List Entry :=
+  [f32.«DynamicKinematicPressure::ctor(Speed)», f64.«DynamicKinematicPressure::ctor(Speed)», f80.«DynamicKinematicPressure::ctor(Speed)»,
+   f32.«DynamicPressure::ctor(MassDensity,Speed)», f64.«DynamicPressure::ctor(MassDensity,Speed)», f80.«DynamicPressure::ctor(MassDensity,Speed)»,
+   f32.«Frequency::Period()», f64.«Frequency::Period()», f80.«Frequency::Period()»,
+   f32.«GasConstant::ctor(IsobaricHeatCapacity,IsochoricHeatCapacity)», f64.«GasConstant::ctor(IsobaricHeatCapacity,IsochoricHeatCapacity)», f80.«GasConstant::ctor(IsobaricHeatCapacity,IsochoricHeatCapacity)»,
+   f32.«HeatCapacityRatio::ctor(IsobaricHeatCapacity,IsochoricHeatCapacity)», f64.«HeatCapacityRatio::ctor(IsobaricHeatCapacity,IsochoricHeatCapacity)», f80.«HeatCapacityRatio::ctor(IsobaricHeatCapacity,IsochoricHeatCapacity)»,
+   f32.«HeatCapacityRatio::ctor(SpecificIsobaricHeatCapacity,SpecificIsochoricHeatCapacity)», f64.«HeatCapacityRatio::ctor(SpecificIsobaricHeatCapacity,SpecificIsochoricHeatCapacity)», f80.«HeatCapacityRatio::ctor(SpecificIsobaricHeatCapacity,SpecificIsochoricHeatCapacity)»,
+   f32.«KinematicViscosity::ctor(DynamicViscosity,MassDensity)», f64.«KinematicViscosity::ctor(DynamicViscosity,MassDensity)», f80.«KinematicViscosity::ctor(DynamicViscosity,MassDensity)»,
+   f32.«MachNumber::ctor(Speed,SoundSpeed)», f64.«MachNumber::ctor(Speed,SoundSpeed)», f80.«MachNumber::ctor(Speed,SoundSpeed)»,
+   f32.«PrandtlNumber::ctor(KinematicViscosity,ThermalDiffusivity)», f64.«PrandtlNumber::ctor(KinematicViscosity,ThermalDiffusivity)», f80.«PrandtlNumber::ctor(KinematicViscosity,ThermalDiffusivity)»,
+   f32.«PrandtlNumber::ctor(SpecificIsobaricHeatCapacity,DynamicViscosity,ScalarThermalConductivity)», f64.«PrandtlNumber::ctor(SpecificIsobaricHeatCapacity,DynamicViscosity,ScalarThermalConductivity)», f80.«PrandtlNumber::ctor(SpecificIsobaricHeatCapacity,DynamicViscosity,ScalarThermalConductivity)»,
+   f32.«ReynoldsNumber::ctor(MassDensity,Speed,Length,DynamicViscosity)», f64.«ReynoldsNumber::ctor(MassDensity,Speed,Length,DynamicViscosity)», f80.«ReynoldsNumber::ctor(MassDensity,Speed,Length,DynamicViscosity)»,
+   f32.«ReynoldsNumber::ctor(Speed,Length,KinematicViscosity)», f64.«ReynoldsNumber::ctor(Speed,Length,KinematicViscosity)», f80.«ReynoldsNumber::ctor(Speed,Length,KinematicViscosity)»,
+   f32.«ScalarStrain::ctor(LinearThermalExpansionCoefficient,TemperatureDifference)», f64.«ScalarStrain::ctor(LinearThermalExpansionCoefficient,TemperatureDifference)», f80.«ScalarStrain::ctor(LinearThermalExpansionCoefficient,TemperatureDifference)»,
+   f32.«SoundSpeed::ctor(HeatCapacityRatio,SpecificGasConstant,Temperature)», f64.«SoundSpeed::ctor(HeatCapacityRatio,SpecificGasConstant,Temperature)», f80.«SoundSpeed::ctor(HeatCapacityRatio,SpecificGasConstant,Temperature)»,
+   f32.«SoundSpeed::ctor(HeatCapacityRatio,StaticPressure,MassDensity)», f64.«SoundSpeed::ctor(HeatCapacityRatio,StaticPressure,MassDensity)», f80.«SoundSpeed::ctor(HeatCapacityRatio,StaticPressure,MassDensity)»,
+   f32.«SoundSpeed::ctor(IsentropicBulkModulus,MassDensity)», f64.«SoundSpeed::ctor(IsentropicBulkModulus,MassDensity)», f80.«SoundSpeed::ctor(IsentropicBulkModulus,MassDensity)»,
+   f32.«SpecificGasConstant::ctor(SpecificIsobaricHeatCapacity,SpecificIsochoricHeatCapacity)», f64.«SpecificGasConstant::ctor(SpecificIsobaricHeatCapacity,SpecificIsochoricHeatCapacity)», f80.«SpecificGasConstant::ctor(SpecificIsobaricHeatCapacity,SpecificIsochoricHeatCapacity)»,
+   f32.«Strain::ctor(VolumetricThermalExpansionCoefficient,TemperatureDifference)», f64.«Strain::ctor(VolumetricThermalExpansionCoefficient,TemperatureDifference)», f80.«Strain::ctor(VolumetricThermalExpansionCoefficient,TemperatureDifference)»,
+   f32.«Stress::VonMises()», f64.«Stress::VonMises()», f80.«Stress::VonMises()»,
+   f32.«Stress::ctor(StaticPressure)», f64.«Stress::ctor(StaticPressure)», f80.«Stress::ctor(StaticPressure)»,
+   f32.«ThermalDiffusivity::ctor(ScalarThermalConductivity,MassDensity,SpecificIsobaricHeatCapacity)», f64.«ThermalDiffusivity::ctor(ScalarThermalConductivity,MassDensity,SpecificIsobaricHeatCapacity)», f80.«ThermalDiffusivity::ctor(ScalarThermalConductivity,MassDensity,SpecificIsobaricHeatCapacity)»,
+   f32.«Time::Frequency()», f64.«Time::Frequency()», f80.«Time::Frequency()»,
+   f32.«Time::ctor(Frequency)», f64.«Time::ctor(Frequency)», f80.«Time::ctor(Frequency)»,
+   f32.«TotalKinematicPressure::ctor(StaticKinematicPressure,DynamicKinematicPressure)», f64.«TotalKinematicPressure::ctor(StaticKinematicPressure,DynamicKinematicPressure)», f80.«TotalKinematicPressure::ctor(StaticKinematicPressure,DynamicKinematicPressure)»,
+   f32.«TotalPressure::ctor(StaticPressure,DynamicPressure)», f64.«TotalPressure::ctor(StaticPressure,DynamicPressure)», f80.«TotalPressure::ctor(StaticPressure,DynamicPressure)»]
+
+/-- The largest rounding count among the output slots of `e` that lie in the positive fragment
+(inputs, positive literals, `×`, `÷`, `+`, `√`, integer powers, conversions). -/
+def maxCount (e : Entry) : Nat :=
+  ((e.numOuts.getD []).filterMap (posFrag e.fm.fmt.p)).foldl max 0
+
+/-- Every slot of every definition that lies in the positive fragment needs at most 8 roundings
+(`float` instantiations that compute through `double` count each `double` operation as a full
+`float` rounding, which is why their counts are higher, not their errors). -/
+theorem rounding_counts : definitions.all (fun e => decide (maxCount e ≤ 8)) = true := by decide +kernel
+
+/-- **C18 (to a few ulps).** For every definition and every output slot whose traced formula lies in
+the positive fragment, with rounding count `k` (at most 8 by `rounding_counts`): for **all** positive
+inputs for which no intermediate result under- or overflows, the value the code computes is within
+`k` roundings of the real value of the traced formula — which the theorems above identify with the
+textbook formula: `exact·(1-u)^k ≤ computed` and `computed·(1-u)^k ≤ exact`, `u = 2^-p` the unit
+round-off of the numeric type, i.e. a relative error of about `k·u`. Not in the fragment (and
+therefore covered only by the search with exact rational oracles): the differences `R = cp − cv`,
+von Mises' differences, the isotropic stress `−p`, and the zero off-diagonal slots of the thermal
+strain (which are exact). -/
+theorem few_ulps :
+    ∀ e ∈ definitions, ∀ outs, e.numOuts = some outs → ∀ ex ∈ outs, ∀ k, posFrag e.fm.fmt.p ex = some k →
+      ∀ (L : Libm) (env : Nat → Fl) (x : Nat → ℝ), (∀ i, 0 < x i ∧ Fl.toReal (env i) = x i) →
+        InRange L env ex →
+        Within ((2 : ℝ) ^ (-(e.fm.fmt.p : Int))) k (Fl.toReal (ex.evalF L env)) (ex.evalR x) := by
+  intro e _ outs _ ex _ k hk L env x henv hr
+  exact posFrag_sound e.fm.fmt.p (fm_p_pos e.fm) ex k hk L env x henv hr
+
+/-- The same bound as a relative error. -/
+theorem few_ulps_relative (U : ℝ) (hU0 : 0 ≤ U) (hU1 : U < 1) (k : Nat) (computed exact : ℝ)
+    (h : Within U k computed exact) : |computed - exact| ≤ (((1 - U) ^ k)⁻¹ - 1) * exact :=
+  h.rel_error hU0 hU1
+
+example : posFrag 53 ((f64.«SoundSpeed::ctor(IsentropicBulkModulus,MassDensity)».numOuts.getD []).headD (.uninit .f64))
+    = some 3 := by decide +kernel
 
 /-- Non-vacuity: the Reynolds number really depends on all four arguments in their roles. -/
 example : (f64.«ReynoldsNumber::ctor(MassDensity,Speed,Length,DynamicViscosity)»).outsR
